@@ -739,6 +739,7 @@ package raft
 
 //@ func Raft.takeSnapshot
 //@   flags inline lockheld
+//@   at call r.encodeConfiguration assert [committed-config] arg0 == r.committedConfiguration && r.committedConfiguration != nil && r.committedConfiguration.Index <= r.lastApplied
 //@   at call r.snapshotStorage.NewSnapshotFile assert [label] arg0 == r.lastApplied && arg1 == Lterm[r.lastApplied] && r.lastApplied > r.lastIncludedIndex && inLog(r.lastApplied) && r.committedConfiguration != nil && r.committedConfiguration.Index <= r.lastApplied
 //@   at call r.fsm.Snapshot assert [snapshot-exact] fsmIndex == sfIndex[snapshot]
 //@   at call snapshot.Close assert [publish-locked] lockheld() && lastAppliedEntry.Index > r.lastIncludedIndex
